@@ -295,6 +295,7 @@ bad_nOpts:
     // Handler says we should stop:
     if (auto rv = Handler().OnAMPLOptions(ao)) {
       internal_rv_ = rv;
+      serror("AMPL options rejected by the solution handler (code %d)", rv);
       return NLW2_SOLRead_Bad_Options;
     }
 
